@@ -146,6 +146,30 @@ def make_scenarios(ctx, count):
                 seq += 1
                 feed(1, G.f_query(rng, netb, m, seq=seq, bridged=bridged and not b_is_bridge), "QUERY")
             ops.append(("ROUND-END",))
+        kmax = min(capb, G.cap_emit(cfa["mtu"]), 6)
+        if i % 3 == 1 and 1 <= capb <= 80 and kmax >= 1:
+            # a second session of the same mapper: B's last QueryResp of the first session left K observations behind, the
+            # mapper resets both stations, discovers them again, has A emit exactly K frames towards B and asks B once - under
+            # the sequence number of its last Query before the Reset (mappers number every session from the start again).
+            # That one QueryResp is B's next one and has room for all K.
+            K = rng.randint(1, kmax)
+            third = rng.choice(netb.strangers)
+            for fsrc in G.distinct_macs(rng, capb + K, avoid=[a, b]):
+                feed(1, W.probe(b, fsrc, b, third, train=rng.random() < 0.3), "F")
+            seq += 1
+            feed(1, G.f_query(rng, netb, m, seq=seq, bridged=bridged and not b_is_bridge), "QUERY")
+            ops.append(("ROUND-END",))
+            feed(0, G.f_reset(rng, neta, m=m, tos=0), "F")
+            feed(1, G.f_reset(rng, netb, m=m, tos=0), "F")
+            feed(0, G.f_discover(rng, neta, m=m, tos=0, bridged=bridged or b_is_bridge, gen=gen), "F")
+            feed(1, G.f_discover(rng, netb, m=m, tos=0, bridged=bridged and not b_is_bridge, gen=gen), "F")
+            descs = [(rng.randint(0, 1), 0, x, b) for x in G.distinct_macs(rng, K, avoid=[a, b])]
+            feed(0, W.emit(a, neta.mappers[m], rng.randint(1, 50000), descs, eth_src=neta.bridges[m] if (bridged or b_is_bridge) else None), "EMIT")
+            s.add("DELIVER 0 1")
+            ops.append(("DELIVER", descs))
+            feed(1, G.f_query(rng, netb, m, seq=seq, bridged=bridged and not b_is_bridge), "QUERY")
+            ops.append(("ROUND-END",))
+            s.meta["second_session_rounds"] = 1
         s.meta.update(ops=ops, a=cfa["mac"], b=b, b_is_bridge=b_is_bridge)
         scns.append(s)
     return scns
@@ -248,6 +272,7 @@ def monitor(scn, sobj, rep, sf, ck):
         rep.count("frames_delivered_to_the_mappers_bridge", delivered_total)
     rep.count("rounds", rounds)
     rep.count("sibling_descriptors", sobj.meta.get("sibling_descriptors", 0))
+    rep.count("second_session_rounds_after_a_partial_drain", sobj.meta.get("second_session_rounds", 0))
     rep.count("quick_discovery_ended_while_observations_were_held", sobj.meta.get("quick_reset_while_holding", 0))
     if sobj.meta.get("bystanders") and delivered_total:
         rep.count("rounds_beside_other_busy_interfaces", rounds)
@@ -260,7 +285,9 @@ def run(ctx):
     rep.rule = ("two interface contexts A and B in one process, the same mapper accepted by both; Emit descriptor lists "
                 "(Probe and Train, any pause) from A towards B with unrelated traffic on both; every frame A hands to the "
                 "port with Ethernet destination B is copied unmodified into B's receive buffer; B's QueryResps (drained) must "
-                "list (real source A, Ethernet source s_i, destination B); non-trivial = distinct delivered (round, source) found")
+                "list (real source A, Ethernet source s_i, destination B); in a third of the scenarios a second session follows a partial drain "
+                "(K observations left behind, Reset + Discover on both, A emits exactly K frames, one Query under the old session's last "
+                "number: that QueryResp alone must list them); non-trivial = distinct delivered (round, source) found")
     rep.assumptions = ["B de-duplicates on (Ethernet source, real source), so inclusion is judged per distinct source"]
     binary = H.build(ctx.work, "asan")
     scns = make_scenarios(ctx, ctx.n(600, 15000))
